@@ -212,8 +212,10 @@ def check(tier, seed):
         return None
 
     return R.finish(RULE, search=search,
-                    partial_note="C05_abort, C05_commit_fail_root and the append-only commit are theorems; 'added ⊆ reachable(new root)' "
-                                 "and 'everything needed is present' after a normal exit rest on this run's oracle and correspondence")
+                    partial_note="C05_abort, C05_commit_fail_root, C05_commit_pruning / C05_commit_nonpruning (the commit clause) and the nested-block "
+                                 "theorems C05_abort_nested / C05_commit_nested are proved; that a batch trie on which an inner block was "
+                                 "committed is again the exact trie of the effective writes, blocks with a failing write, and the calling "
+                                 "context (ambient exception, BaseException / GeneratorExit exits) rest on this run's oracle and correspondence")
 
 
 def replay(payload):
